@@ -10,7 +10,7 @@
 
 use rustdds::verif::{
   pl::{self, Lease},
-  sec::{AuthParty, Outcome, Token},
+  sec::{forge_final, AuthParty, Outcome, Token},
 };
 
 use super::Spec;
@@ -223,6 +223,25 @@ pub fn run(_tier: &str, ctx: &mut Ctx) -> Check {
     p.copy_from_slice(&g[..12]);
     p
   };
+  // sometimes the outsider was seen first (another remote in the plugins' tables, other handle values)
+  let mut x0: Option<AuthParty> = None;
+  let (mut a_sees_x, mut b_sees_x): (Option<u32>, Option<u32>) = (None, None);
+  let early = ctx.ch.weighted(&[3, 1, 1, 1]);
+  if early > 0 {
+    let xdir0 = if ctx.ch.chance(1, 2) { "foreign1" } else { "foreign" };
+    let xp = mk(xdir0, 9).map_err(|e| v("HARNESS-ERROR/c19-foreign", e))?;
+    let gx = xp.guid_bytes();
+    let idx = xp.identity_token().map_err(|e| v("HARNESS-ERROR/c19-token", e))?;
+    if early & 1 == 1 {
+      a_sees_x = w.a.see_remote(&idx, pfx(gx), None).ok().map(|(_, h, _)| h);
+    }
+    if early & 2 == 2 {
+      b_sees_x = w.b.see_remote(&idx, pfx(gx), None).ok().map(|(_, h, _)| h);
+    }
+    x0 = Some(xp);
+    ctx.count("probe.outsider_seen_first");
+  }
+  let _ = &x0;
   // the participants discover each other (identity tokens travel in SPDP)
   let (oa, hb, req_a) = w.a.see_remote(&idb, pfx(gb), None).map_err(|e| v("C19/genuine-identity-refused", e))?;
   let (ob, ha, _req_b) = w.b.see_remote(&ida, pfx(ga), req_a.as_ref()).map_err(|e| v("C19/genuine-identity-refused", e))?;
@@ -240,7 +259,8 @@ pub fn run(_tier: &str, ctx: &mut Ctx) -> Check {
   };
   ctx.logf(|| format!("initiator is {}", if init_is_a { "A" } else { "B" }));
 
-  // an outsider with the same subject name, certified by another CA
+  // an outsider with the subject name of participant2 (`foreign`) or participant1 (`foreign1`), certified by another CA
+  let xdir = if ctx.ch.chance(1, 2) { "foreign1" } else { "foreign" };
   let mut x: Option<AuthParty> = None;
 
   let mut s = w.start(init_is_a).map_err(|e| v("C19/genuine-handshake-fails", e))?;
@@ -294,15 +314,44 @@ pub fn run(_tier: &str, ctx: &mut Ctx) -> Check {
         3 => {
           // a message made by the outsider (foreign CA): its own request, or the genuine one with its certificate
           if x.is_none() {
-            x = Some(AuthParty::new(&format!("{dir}/foreign"), [9, 2, 3, 4, 5, 6, 7, 8, 9, 10, 11, 9]).map_err(|e| v("HARNESS-ERROR/c19-foreign", e))?);
+            x = Some(AuthParty::new(&format!("{dir}/{xdir}"), [9, 2, 3, 4, 5, 6, 7, 8, 9, 10, 11, 9]).map_err(|e| v("HARNESS-ERROR/c19-foreign", e))?);
           }
           let xp = x.as_mut().unwrap();
           let gx = xp.guid_bytes();
           let idt = if init_is_a { &idb } else { &ida };
           let target_pfx = if s.init_is_a { pfx(gb) } else { pfx(ga) };
-          match xp.see_remote(idt, target_pfx, None).and_then(|(_, h, _)| xp.begin_request(h, pdata_for(gx))) {
+          // its participant data: its own, or a copy of the genuine initiator's
+          let xpdata = if ctx.ch.chance(1, 2) { pdata_for(gx) } else if s.init_is_a { w.pa.clone() } else { w.pb.clone() };
+          match xp.see_remote(idt, target_pfx, None).and_then(|(_, h, _)| xp.begin_request(h, xpdata)) {
             Ok((_, _, mx)) => {
-              if step == Step::Request {
+              if step == Step::Request || (step == Step::Final && ctx.ch.chance(1, 2)) {
+                // an active forger: if its request is answered it signs a final message with its own key
+                w.injected += 1;
+                ctx.count("fault.injected_handshake_message");
+                ctx.logf(|| format!("{step:?}: inject request of a participant certified by a foreign CA ({xdir})"));
+                w.fp.str("foreign request");
+                let (remote, pdata) = if s.init_is_a { (w.b_sees_a, w.pb.clone()) } else { (w.a_sees_b, w.pa.clone()) };
+                let init_is_a = s.init_is_a;
+                match w.party(!init_is_a).begin_reply(&mx, remote, pdata) {
+                  Err(e) => ctx.logf(|| format!("  rejected: {}", &e[..e.len().min(100)])),
+                  Ok((_, hsx, m2x)) => {
+                    ctx.count("probe.replied_to_foreign_ca_request");
+                    let ff = forge_final(&format!("{dir}/{xdir}/key.pem"), &mx, &m2x).map_err(|e| v("HARNESS-ERROR/c19-forge", e))?;
+                    if let Ok((o, _)) = w.party(!init_is_a).process(&ff, hsx) {
+                      if o == Outcome::Ok || o == Outcome::OkFinalMessage {
+                        return Err(v(
+                          "C19/foreign-ca-accepted",
+                          format!("{step:?}: the request of a participant certified by a foreign CA ({xdir}) was answered and its final message accepted ({o:?}): handshake completed with a foreign-CA identity"),
+                        ));
+                      }
+                    }
+                    if step == Step::Request {
+                      s.hs_repl = Some(hsx);
+                    }
+                  }
+                }
+                continue;
+              } else if step == Step::Request {
                 (mx, "request of a participant certified by a foreign CA".into())
               } else {
                 let mut m = genuine.clone();
@@ -384,6 +433,27 @@ pub fn run(_tier: &str, ctx: &mut Ctx) -> Check {
     let _ = poisoned;
     // ---- the genuine message ---------------------------------------------------------------------------
     ctx.logf(|| format!("{step:?}: genuine message"));
+    // self-test of the forger's tool: the final message made again with the genuine initiator's key is
+    // as good as the genuine one
+    let genuine = if step == Step::Final && n_inj == 0 && ctx.ch.chance(1, 8) {
+      let key = format!("{dir}/{}/key.pem", if s.init_is_a { "p1" } else { "p2" });
+      let again = forge_final(&key, &s.m1, s.m2.as_ref().unwrap()).map_err(|e| v("HARNESS-ERROR/c19-forge", e))?;
+      match w.deliver(&mut s, step, &again) {
+        Ok((Outcome::Ok, _)) => {
+          ctx.count("probe.final_made_again_with_genuine_key_accepted");
+          done_repl = true;
+          continue;
+        }
+        other => {
+          return Err(v(
+            "HARNESS-ERROR/c19-forge",
+            format!("a final message made again with the genuine key was answered {other:?}"),
+          ))
+        }
+      }
+    } else {
+      genuine
+    };
     match w.deliver(&mut s, step, &genuine) {
       Ok((o, reply)) => match step {
         Step::Request => {
@@ -446,10 +516,39 @@ pub fn run(_tier: &str, ctx: &mut Ctx) -> Check {
   if sa != sb || sa.is_empty() {
     return Err(v("C19/shared-secrets-differ", format!("A derived {} bytes, B {} bytes, equal: {}", sa.len(), sb.len(), sa == sb)));
   }
+  // ---- stray messages after completion: nothing may change -------------------------------------------------
+  let n_stray = ctx.ch.weighted(&[4, 3, 2, 1]);
+  for _ in 0..n_stray {
+    let to_init = ctx.ch.chance(1, 2);
+    let c = w.seen[ctx.ch.index(w.seen.len())].clone();
+    let msg = if ctx.ch.chance(1, 3) { alter(&c.1, None, ctx).0 } else { c.1 };
+    let (is_a, hs) = if to_init { (s.init_is_a, Some(s.hs_init)) } else { (!s.init_is_a, s.hs_repl) };
+    let Some(hs) = hs else { continue };
+    w.injected += 1;
+    ctx.count("fault.stray_message_after_completion");
+    let r = w.party(is_a).process(&msg, hs);
+    ctx.logf(|| format!("after completion: a {:?}-type message to the {}: {:?}", c.0, if to_init { "initiator" } else { "replier" }, r.as_ref().map(|(o, _)| *o).map_err(|e| e[..e.len().min(60)].to_string())));
+    w.fp.str("stray");
+  }
+  if n_stray > 0 {
+    let sa2 = w.a.shared_secret(w.a_sees_b).map_err(|e| v("C19/shared-secret-lost-after-stray-message", format!("A, after {n_stray} stray messages following completion: {e}")))?;
+    let sb2 = w.b.shared_secret(w.b_sees_a).map_err(|e| v("C19/shared-secret-lost-after-stray-message", format!("B, after {n_stray} stray messages following completion: {e}")))?;
+    if sa2 != sa || sb2 != sb {
+      return Err(v("C19/shared-secret-lost-after-stray-message", "the shared secret changed after stray messages following completion".into()));
+    }
+  }
+  // a participant that never took part in a handshake has no shared secret
+  for (who, p, h) in [("A", &w.a, a_sees_x), ("B", &w.b, b_sees_x)] {
+    if let Some(h) = h {
+      if p.shared_secret(h).is_ok() {
+        return Err(v("C19/foreign-ca-accepted", format!("{who} holds a shared secret for the foreign-CA participant it only saw in discovery")));
+      }
+    }
+  }
   // the outsider on its own: a full attempt against A must go nowhere
   if ctx.ch.chance(1, 3) {
     if x.is_none() {
-      x = Some(AuthParty::new(&format!("{dir}/foreign"), [9, 2, 3, 4, 5, 6, 7, 8, 9, 10, 11, 9]).map_err(|e| v("HARNESS-ERROR/c19-foreign", e))?);
+      x = Some(AuthParty::new(&format!("{dir}/{xdir}"), [9, 2, 3, 4, 5, 6, 7, 8, 9, 10, 11, 9]).map_err(|e| v("HARNESS-ERROR/c19-foreign", e))?);
     }
     let xp = x.as_mut().unwrap();
     let gx = xp.guid_bytes();
